@@ -1,10 +1,447 @@
-//! C07 — not built yet.
-use crate::ev::Ctx;
-pub fn run(_ctx: &Ctx) -> i32 {
-    println!("INCONCLUSIVE property=C07 check not built yet");
-    2
+//! C07 — YAML in UTF-16/UTF-32 translates exactly like the same text in UTF-8.
+//!
+//! (a) translation level: generated YAML texts in 4 encodings x BOM/no BOM x
+//! slice/reader x explicit/detected must give the verdict and output of the
+//! UTF-8 text. (b) re-encoder level (hook): EVERY UTF-16 code unit, EVERY
+//! surrogate pair and EVERY UTF-32 scalar value, both byte orders, with and
+//! without BOM, read through varying buffer sizes, against a reference decoder
+//! built on the standard library; ill-formed input must end in an error and
+//! never produce a fabricated character.
+
+use std::io::{BufReader, Read};
+
+use serde_json::{json, Value};
+
+use crate::corpus::yaml_stream;
+use crate::ev::{self, Acc, Ctx, Finish, Violation};
+use crate::fmts::{Fmt, ALL};
+use crate::gen::{gen_doc, Classes, GenOpts};
+use crate::model::{hex, preview, unhex};
+use crate::mon::{Sched, SchedReader};
+use crate::rng::Rng;
+use crate::run::{guarded_any, run_mode, Mode};
+use crate::spell::Feats;
+
+#[derive(Clone, Copy, Debug, PartialEq)]
+pub enum Enc {
+    U16Le,
+    U16Be,
+    U32Le,
+    U32Be,
 }
-pub fn replay(_case: &serde_json::Value) -> i32 {
-    println!("replay not built yet");
-    2
+
+pub const ENCS: [Enc; 4] = [Enc::U16Le, Enc::U16Be, Enc::U32Le, Enc::U32Be];
+
+impl Enc {
+    pub fn name(self) -> &'static str {
+        match self {
+            Enc::U16Le => "utf16le",
+            Enc::U16Be => "utf16be",
+            Enc::U32Le => "utf32le",
+            Enc::U32Be => "utf32be",
+        }
+    }
+    pub fn parse(s: &str) -> Option<Enc> {
+        ENCS.into_iter().find(|e| e.name() == s)
+    }
+    pub fn unit16(self, u: u16, out: &mut Vec<u8>) {
+        match self {
+            Enc::U16Le => out.extend_from_slice(&u.to_le_bytes()),
+            Enc::U16Be => out.extend_from_slice(&u.to_be_bytes()),
+            _ => unreachable!(),
+        }
+    }
+    pub fn unit32(self, u: u32, out: &mut Vec<u8>) {
+        match self {
+            Enc::U32Le => out.extend_from_slice(&u.to_le_bytes()),
+            Enc::U32Be => out.extend_from_slice(&u.to_be_bytes()),
+            _ => unreachable!(),
+        }
+    }
+    pub fn is16(self) -> bool {
+        matches!(self, Enc::U16Le | Enc::U16Be)
+    }
+    pub fn encode(self, text: &str, bom: bool) -> Vec<u8> {
+        let mut out = vec![];
+        let s: String = if bom { format!("\u{feff}{text}") } else { text.to_string() };
+        if self.is16() {
+            for u in s.encode_utf16() {
+                self.unit16(u, &mut out);
+            }
+        } else {
+            for c in s.chars() {
+                self.unit32(c as u32, &mut out);
+            }
+        }
+        out
+    }
+}
+
+// ------------------------------------------------------------------ (a)
+
+pub fn translation_level(text: &str, enc: Enc, bom: bool, mode: &Mode, detect: bool, to: Fmt, acc: &mut Acc) {
+    acc.evals += 1;
+    let from = if detect { None } else { Some(Fmt::Yaml) };
+    let base = run_mode(text.as_bytes(), mode, from, to);
+    let encoded = enc.encode(text, bom);
+    let got = run_mode(&encoded, mode, from, to);
+    acc.count(&format!("texts_{}_{}", enc.name(), if bom { "bom" } else { "nobom" }));
+    if matches!(mode, Mode::Slice) {
+        acc.count("translation_level_slice");
+    } else {
+        acc.count("translation_level_reader");
+    }
+    // error positions are byte offsets in whatever the parser saw and may differ; the class must agree
+    let same = base.verdict.class() == got.verdict.class() && if base.verdict.is_ok() { base.out == got.out } else { crate::run::prefix_comparable(&base.out, &got.out) };
+    if !same {
+        acc.violation(Violation {
+            sig: format!("{} {} {} {}: differs from UTF-8", enc.name(), if bom { "bom" } else { "nobom" }, if matches!(mode, Mode::Slice) { "slice" } else { "reader" }, if detect { "detected" } else { "explicit" }),
+            case: json!({"part": "translation", "text_hex": hex(text.as_bytes()), "text_preview": preview(text.as_bytes(), 200), "encoding": enc.name(), "bom": bom, "mode": mode.describe(), "detect": detect, "to": to.name()}),
+            observed: format!("UTF-8: {} [{}]; {}: {} [{}]", base.verdict.show(), preview(&base.out, 100), enc.name(), got.verdict.show(), preview(&got.out, 100)),
+            expected: "the same verdict and output as the UTF-8 text".into(),
+        });
+    }
+}
+
+// ------------------------------------------------------------------ (b)
+
+/// Reads the re-encoder to the end with output buffers of size `out_buf`
+/// (0 = sizes cycling 1..=9). Returns the bytes produced and whether the
+/// stream ended with an error.
+fn drain(mut r: Box<dyn Read + '_>, out_buf: usize) -> (Vec<u8>, Option<String>) {
+    let mut out = vec![];
+    let mut buf = [0u8; 64];
+    let mut i = 0usize;
+    loop {
+        let n = if out_buf == 0 { 1 + i % 9 } else { out_buf.min(64) };
+        i += 1;
+        match r.read(&mut buf[..n]) {
+            Ok(0) => return (out, None),
+            Ok(m) => out.extend_from_slice(&buf[..m]),
+            Err(e) => return (out, Some(e.to_string())),
+        }
+    }
+}
+
+pub struct Unit {
+    /// raw encoded input
+    pub bytes: Vec<u8>,
+    /// reference UTF-8 of the well-formed prefix (one leading BOM stripped)
+    pub reference: Vec<u8>,
+    /// whether the whole input is well-formed
+    pub well_formed: bool,
+}
+
+/// Reference decoder written with the standard library.
+pub fn reference_decode(enc: Enc, bytes: &[u8]) -> Unit {
+    let mut chars: Vec<char> = vec![];
+    let mut ok = true;
+    if enc.is16() {
+        let mut units = vec![];
+        let mut it = bytes.chunks_exact(2);
+        for c in &mut it {
+            units.push(match enc {
+                Enc::U16Le => u16::from_le_bytes([c[0], c[1]]),
+                _ => u16::from_be_bytes([c[0], c[1]]),
+            });
+        }
+        let odd = !it.remainder().is_empty();
+        for r in char::decode_utf16(units) {
+            match r {
+                Ok(c) => chars.push(c),
+                Err(_) => {
+                    ok = false;
+                    break;
+                }
+            }
+        }
+        if odd {
+            ok = false;
+        }
+    } else {
+        let mut it = bytes.chunks_exact(4);
+        for c in &mut it {
+            let u = match enc {
+                Enc::U32Le => u32::from_le_bytes([c[0], c[1], c[2], c[3]]),
+                _ => u32::from_be_bytes([c[0], c[1], c[2], c[3]]),
+            };
+            match char::from_u32(u) {
+                Some(c) => chars.push(c),
+                None => {
+                    ok = false;
+                    break;
+                }
+            }
+        }
+        if ok && !it.remainder().is_empty() {
+            ok = false;
+        }
+    }
+    let mut s: String = chars.into_iter().collect();
+    if s.starts_with('\u{feff}') {
+        s.remove(0);
+    }
+    Unit { bytes: bytes.to_vec(), reference: s.into_bytes(), well_formed: ok }
+}
+
+pub fn reencoder_case(enc: Enc, bytes: &[u8], in_cap: usize, out_buf: usize, via_detection: bool, label: &str, acc: &mut Acc) {
+    acc.evals += 1;
+    let unit = reference_decode(enc, bytes);
+    let res = guarded_any(|| {
+        let src = BufReader::with_capacity(in_cap.max(1), SchedReader::new(bytes, Sched::Fixed(in_cap.max(1))));
+        let r: Box<dyn Read> = if via_detection {
+            match xt::verif::yaml_reencoder(src) {
+                Ok(r) => r,
+                Err(e) => return (vec![], Some(format!("constructor: {e}"))),
+            }
+        } else {
+            xt::verif::yaml_reencoder_as(src, enc.name()).expect("encoding name")
+        };
+        drain(r, out_buf)
+    });
+    let case = || json!({"part": "reencoder", "encoding": enc.name(), "input_hex": if bytes.len() <= 4096 { hex(bytes) } else { format!("({} bytes, class {label})", bytes.len()) }, "class": label, "in_cap": in_cap, "out_buf": out_buf, "via_detection": via_detection});
+    match res {
+        Err(p) => acc.violation(Violation { sig: format!("re-encoder panic ({label})"), case: case(), observed: format!("panic: {p}"), expected: "bytes or an error".into() }),
+        Ok((out, err)) => {
+            if unit.well_formed {
+                acc.count("wellformed_streams");
+                acc.add("characters_decoded", String::from_utf8_lossy(&unit.reference).chars().count() as u64);
+                if err.is_some() || out != unit.reference {
+                    let at = out.iter().zip(unit.reference.iter()).position(|(a, b)| a != b).unwrap_or(out.len().min(unit.reference.len()));
+                    acc.violation(Violation { sig: format!("re-encoder output differs from the reference decoder ({} {label})", enc.name()), case: case(), observed: format!("error: {:?}; {} bytes produced, {} expected, first difference at byte {at}: got [{}] expected [{}]", err, out.len(), unit.reference.len(), preview(&out[at.min(out.len())..], 24), preview(&unit.reference[at.min(unit.reference.len())..], 24)), expected: "the reference UTF-8".into() });
+                }
+            } else {
+                acc.count("illformed_streams");
+                acc.count(&format!("illformed_{label}"));
+                if err.is_none() {
+                    acc.violation(Violation { sig: format!("ill-formed {} accepted ({label})", enc.name()), case: case(), observed: format!("no error; produced [{}]", preview(&out, 60)), expected: "an error".into() });
+                } else if !crate::run::is_prefix(&out, &unit.reference) {
+                    acc.violation(Violation { sig: format!("ill-formed {}: fabricated bytes before the error ({label})", enc.name()), case: case(), observed: format!("produced [{}] before the error; reference prefix is [{}]", preview(&out, 60), preview(&unit.reference, 60)), expected: "only bytes of the well-formed prefix".into() });
+                }
+            }
+        }
+    }
+}
+
+fn exhaustive_reencoder(ctx: &Ctx, acc_total: &mut Acc) {
+    // work items: (kind, enc, index)
+    #[derive(Clone, Copy)]
+    enum W {
+        Bmp(Enc, bool),                 // all non-surrogate BMP units in one stream
+        PairsOfLead(Enc, u16),          // all 1024 pairs of one lead surrogate
+        Utf32Plane(Enc, u32, bool),     // all scalar values of one plane
+        Ill16(Enc, u16),                // ill-formed classes around one surrogate value block
+        Ill32(Enc, u32),
+    }
+    let mut work: Vec<W> = vec![];
+    for enc in [Enc::U16Le, Enc::U16Be] {
+        work.push(W::Bmp(enc, false));
+        work.push(W::Bmp(enc, true));
+        for lead in 0xD800u16..0xDC00 {
+            work.push(W::PairsOfLead(enc, lead));
+        }
+        for blk in 0..32u16 {
+            work.push(W::Ill16(enc, 0xD800 + blk * 64));
+        }
+    }
+    for enc in [Enc::U32Le, Enc::U32Be] {
+        for plane in 0..17u32 {
+            work.push(W::Utf32Plane(enc, plane, plane % 2 == 0));
+        }
+        for blk in 0..32u32 {
+            work.push(W::Ill32(enc, 0xD800 + blk * 64));
+        }
+    }
+    let thorough = ctx.thorough();
+    let acc = crate::par::run(work.len(), 1, |i, acc| {
+        let variants: Vec<(usize, usize)> = if thorough { (1..=9).map(|o| (o, o)).chain([(8192, 0), (3, 64)]).collect() } else { vec![(1 + i % 7, 0), (8192, 1 + i % 9)] };
+        match work[i] {
+            W::Bmp(enc, bom) => {
+                let mut b = vec![];
+                if bom {
+                    enc.unit16(0xFEFF, &mut b);
+                }
+                // two ASCII characters: encoding detection looks at the first four bytes,
+                // and a NUL there would be ambiguous (YAML text cannot contain NUL)
+                enc.unit16(b'a' as u16, &mut b);
+                enc.unit16(b'b' as u16, &mut b);
+                for u in 0u32..0x10000 {
+                    if !(0xD800..0xE000).contains(&u) {
+                        enc.unit16(u as u16, &mut b);
+                    }
+                }
+                acc.distinct(&(enc.name(), "bmp", bom));
+                for (ic, ob) in &variants {
+                    reencoder_case(enc, &b, *ic, *ob, false, "all_bmp_units", acc);
+                }
+                // through encoding detection as well (starts with an ASCII character or a BOM)
+                reencoder_case(enc, &b, 8192, 0, true, "all_bmp_units_detected", acc);
+            }
+            W::PairsOfLead(enc, lead) => {
+                let mut b = vec![];
+                enc.unit16(b'-' as u16, &mut b);
+                for trail in 0xDC00u16..0xE000 {
+                    enc.unit16(lead, &mut b);
+                    enc.unit16(trail, &mut b);
+                }
+                acc.distinct(&(enc.name(), "pairs", lead));
+                acc.add("surrogate_pairs_enumerated", 1024);
+                for (ic, ob) in &variants {
+                    reencoder_case(enc, &b, *ic, *ob, false, "all_pairs_of_a_lead", acc);
+                }
+            }
+            W::Utf32Plane(enc, plane, bom) => {
+                let mut b = vec![];
+                if bom {
+                    enc.unit32(0xFEFF, &mut b);
+                } else {
+                    enc.unit32(b'a' as u32, &mut b);
+                }
+                let mut n = 0u64;
+                for u in plane * 0x10000..(plane + 1) * 0x10000 {
+                    if char::from_u32(u).is_some() {
+                        enc.unit32(u, &mut b);
+                        n += 1;
+                    }
+                }
+                acc.add("utf32_scalars_enumerated", n);
+                acc.distinct(&(enc.name(), "plane", plane));
+                for (ic, ob) in &variants {
+                    reencoder_case(enc, &b, *ic, *ob, false, "all_scalars_of_a_plane", acc);
+                }
+                if plane == 0 {
+                    reencoder_case(enc, &b, 8192, 0, true, "plane_detected", acc);
+                }
+            }
+            W::Ill16(enc, start) => {
+                for s in start..start + 64 {
+                    let ctxs: Vec<(Vec<u16>, &str)> = if s < 0xDC00 {
+                        vec![(vec![0x61, s], "lone_lead_at_eof"), (vec![0x61, s, 0x62, 0x63], "lead_then_non_trail"), (vec![0x61, s, s, 0xDC00], "lead_then_lead"), (vec![0x61, s, 0xFFFF], "lead_then_bmp_max")]
+                    } else {
+                        vec![(vec![0x61, s, 0x62], "lone_trail"), (vec![0x61, s, 0xD800], "reversed_pair"), (vec![s], "lone_trail_first")]
+                    };
+                    for (units, label) in ctxs {
+                        let mut b = vec![];
+                        for u in &units {
+                            enc.unit16(*u, &mut b);
+                        }
+                        acc.distinct(&(enc.name(), label, s));
+                        reencoder_case(enc, &b, 1 + (s as usize % 5), 1 + (s as usize % 9), false, label, acc);
+                    }
+                }
+                // truncated units: odd tails
+                let mut b = vec![];
+                enc.unit16(0x61, &mut b);
+                enc.unit16(0x62, &mut b);
+                b.push(0x63);
+                reencoder_case(enc, &b, 2, 3, false, "truncated_unit", acc);
+                let mut b = vec![];
+                enc.unit16(0x61, &mut b);
+                enc.unit16(0xD83D, &mut b);
+                b.push(0x00);
+                reencoder_case(enc, &b, 3, 2, false, "truncated_unit_after_lead", acc);
+            }
+            W::Ill32(enc, start) => {
+                for s in start..start + 64 {
+                    let mut b = vec![];
+                    enc.unit32(0x61, &mut b);
+                    enc.unit32(s, &mut b);
+                    enc.unit32(0x62, &mut b);
+                    acc.distinct(&(enc.name(), "surrogate32", s));
+                    reencoder_case(enc, &b, 1 + (s as usize % 7), 1 + (s as usize % 9), false, "utf32_surrogate_value", acc);
+                }
+                for big in [0x110000u32, 0x110001, 0x1FFFFF, 0x7FFFFFFF, 0x80000000, 0xFFFFFFFF, 0x00FFFFFF, start.wrapping_mul(0x9E3779B1) | 0x110000] {
+                    let mut b = vec![];
+                    enc.unit32(0x61, &mut b);
+                    enc.unit32(big, &mut b);
+                    reencoder_case(enc, &b, 4, 1, false, "utf32_above_10ffff", acc);
+                }
+                for tail in 1..4usize {
+                    let mut b = vec![];
+                    enc.unit32(0x61, &mut b);
+                    enc.unit32(0x62, &mut b);
+                    b.truncate(4 + tail);
+                    reencoder_case(enc, &b, 3, 2, false, "truncated_unit", acc);
+                }
+            }
+        }
+    });
+    acc_total.merge(acc);
+}
+
+pub fn run(ctx: &Ctx) -> i32 {
+    let n_texts = ctx.size(10000, 300000);
+    let seed = ctx.seed;
+    let mut acc = crate::par::run(n_texts, 8, |i, acc| {
+        let mut rng = Rng::derive(seed, 0xc07, i as u64);
+        let mut cl = Classes::default();
+        let mut feats = Feats::default();
+        let n_docs = *rng.pick(&[1usize, 1, 2, 3]);
+        let o = GenOpts { max_depth: 3, max_width: 4, ..GenOpts::common() };
+        let docs: Vec<_> = (0..n_docs).map(|_| gen_doc(&mut rng, &o, &mut cl)).collect();
+        let bytes = yaml_stream(&docs, &mut rng, &mut feats, i % 5 == 0);
+        let text = match String::from_utf8(bytes) {
+            Ok(t) => t,
+            Err(_) => return,
+        };
+        // an ASCII-only variant as well: it is valid UTF-8 in every encoding
+        let ascii_only = text.is_ascii();
+        if ascii_only {
+            acc.count("ascii_only_texts");
+        }
+        acc.distinct(&text);
+        acc.sample_every(499, || json!({"text_preview": preview(text.as_bytes(), 120), "ascii_only": ascii_only}));
+        let enc = ENCS[i % 4];
+        let to = ALL[(i / 4) % 4];
+        let starts_ascii = text.chars().next().map(|c| c.is_ascii() && c != '\0').unwrap_or(false);
+        let modes = [Mode::Slice, Mode::Reader(Sched::Fixed(1 + i % 9)), Mode::Reader(Sched::Random(rng.next(), 13))];
+        for bom in [true, false] {
+            if !bom && !starts_ascii {
+                continue; // YAML requires a BOM or an ASCII first character
+            }
+            // the detected variant only where the UTF-8 text itself is detected as YAML
+            // (a text that is also valid JSON is JSON in UTF-8 and cannot be in UTF-16)
+            let yaml_detected = xt::verif::detect_slice(text.as_bytes()).ok().flatten().map(Fmt::from_xt) == Some(Fmt::Yaml);
+            for mode in &modes {
+                translation_level(&text, enc, bom, mode, false, to, acc);
+                if yaml_detected {
+                    acc.count("detected_variants");
+                    translation_level(&text, enc, bom, mode, true, to, acc);
+                }
+            }
+        }
+    });
+    exhaustive_reencoder(ctx, &mut acc);
+    let rule = format!("(a) {} generated YAML streams (1-3 documents, hostile scalars, every spelling feature) x one encoding in turn x [BOM, no BOM when the text starts with ASCII] x [slice, reader fixed(1..9), reader random] x [explicit, detected], compared with the same text in UTF-8; (b) exhaustive at the re-encoder hook: all 63 488 non-surrogate UTF-16 units, all 1 048 576 surrogate pairs, all 1 112 064 UTF-32 scalar values, both byte orders, with/without BOM, input buffer capacities and output buffer sizes varied ({} variants each), against a std-based reference decoder; ill-formed classes: every surrogate value as lone lead / lead+non-trail / lead+lead / lone trail / reversed pair, truncated units, every UTF-32 value in D800..DFFF, values >= 0x110000; distinct non-trivial = distinct texts plus distinct enumeration blocks", n_texts, if ctx.thorough() { 11 } else { 2 });
+    let mut extra = serde_json::Map::new();
+    extra.insert("reencoder_enumeration_complete".into(), json!(true));
+    ev::finish(
+        Finish { ctx, level: "exploration", rule, assumptions: vec!["reference decoder: char::decode_utf16 / char::from_u32 from the standard library".into(), "for failing texts only the verdict class and prefix-comparable output are compared (error positions are byte offsets of what the parser saw)".into()], extra, exhaustive: false, min_distinct: 1000, must_reach: vec![("surrogate_pairs_enumerated".into(), 2 * 1_048_576), ("utf32_scalars_enumerated".into(), 2 * 1_112_064), ("illformed_streams".into(), 10000), ("translation_level_slice".into(), 1000), ("ascii_only_texts".into(), 20), ("detected_variants".into(), 500), ("YAML_SLICE_REENCODE_PATH".into(), 500)] },
+        acc,
+    )
+}
+
+pub fn replay(v: &Value) -> i32 {
+    let c = &v["case"];
+    let mut acc = Acc::default();
+    if c["part"].as_str() == Some("translation") {
+        let (Some(text), Some(enc), Some(mode), Some(to)) = (c["text_hex"].as_str().and_then(unhex).and_then(|b| String::from_utf8(b).ok()), c["encoding"].as_str().and_then(Enc::parse), c["mode"].as_str().and_then(Mode::parse), c["to"].as_str().and_then(Fmt::parse)) else {
+            println!("bad replay case");
+            return 2;
+        };
+        translation_level(&text, enc, c["bom"].as_bool().unwrap_or(false), &mode, c["detect"].as_bool().unwrap_or(false), to, &mut acc);
+    } else {
+        let (Some(enc), Some(bytes)) = (c["encoding"].as_str().and_then(Enc::parse), c["input_hex"].as_str().and_then(unhex)) else {
+            println!("replay of whole-plane enumeration cases: re-run the check (input too large to embed)");
+            return 2;
+        };
+        reencoder_case(enc, &bytes, c["in_cap"].as_u64().unwrap_or(1) as usize, c["out_buf"].as_u64().unwrap_or(1) as usize, c["via_detection"].as_bool().unwrap_or(false), "replay", &mut acc);
+    }
+    if acc.vio_count > 0 {
+        println!("VIOLATION property=C07 replay=<this file> (reproduced): {}", acc.violations[0].observed);
+        1
+    } else {
+        println!("not reproduced");
+        0
+    }
 }
